@@ -160,8 +160,8 @@ SpectrumKnown(s) == Len(s.rrows) = NSp(s.p)
    eigs(A=K, M=B, sigma=-1, which='LM'): the k ids of largest 1/(omega^2+1) = mu/(1+mu), i.e. largest mu; any order;
    eig(a=-B, b=K): all ids, any order.
    Ties / near ties are admitted up to the relative slack 2^-SelBits (exactly, when SelBits = 0). *)
-AscMu(p, ret) == \A j \in 1..(Len(ret)-1) :
-                    RLe(Mu(p, ret[j]), RAdd(Mu(p, ret[j+1]), RMul(Slack, MuMax(p))))
+AscMu(p, ret) == LET eps == RMul(Slack, MuMax(p))
+                 IN \A j \in 1..(Len(ret)-1) : RLe(Mu(p, ret[j]), RAdd(Mu(p, ret[j+1]), eps))
 WorstNu(p, ids) == LET f[j \in 1..Len(ids)] == IF j = 1 THEN ids[1]
                                                ELSE IF NuLt(p, f[j-1], ids[j]) THEN ids[j] ELSE f[j-1]
                    IN f[Len(ids)]
@@ -255,10 +255,11 @@ DoNegateInvert(s) ==      \* eigvals = -1./eigvals
         \* literal: in the regime of the ordering clause only the positive multipliers are handed back
         cut == ~D(s, KF_C05_NonPositiveTail) /\ known /\ Regime(s.p)
         nc == Len(s.vec.colid)
+        negs == Negs(s.p)
     IN IF ~cut THEN [s EXCEPT !.vals = lam, !.pc = AfterXform(s)]
-       ELSE [s EXCEPT !.vals = SelectSeq2(lam, [j \in 1..L |-> lam[j].id \in Negs(s.p)]),
+       ELSE [s EXCEPT !.vals = SelectSeq2(lam, [j \in 1..L |-> lam[j].id \in negs]),
                       !.vec = [s.vec EXCEPT !.colid = SelectSeq2(s.vec.colid,
-                                                                 [c \in 1..nc |-> s.vec.colid[c] \in Negs(s.p)])],
+                                                                 [c \in 1..nc |-> s.vec.colid[c] \in negs])],
                       !.pc = AfterXform(s)]
 DoSqrt(s) ==              \* sqrt(omega^2)  resp.  sqrt(-1/nu)
     [s EXCEPT !.vals = Ev([j \in 1..Len(s.vals) |-> [id |-> s.vals[j].id, form |-> "om"]]), !.pc = AfterXform(s)]
@@ -369,15 +370,18 @@ Pairing(s) ==
                    /\ \A c \in 1..Min2(Len(s.vals), Len(s.vec.colid)) : s.vals[c].id = s.vec.colid[c]
                    /\ \A c \in 1..Len(s.vals) : s.vals[c].form = IF IsLb(s.o.api) THEN "lam" ELSE "om"
 (* C05 ordering clause.  lambda = -1/mu: positive multipliers are the negative mu, ascending lambda = ascending mu *)
-PosAscending(p, ids, L) == /\ \A c \in 1..L : ids[c] \in Negs(p)
-                           /\ \A c \in 1..(L-1) : RLe(Mu(p, ids[c]), RAdd(Mu(p, ids[c+1]), RMul(Slack, MuMax(p))))
-                           /\ L >= 1 => \A i \in Negs(p) : RLe(Mu(p, ids[1]), RAdd(Mu(p, i), RMul(Slack, MuMax(p))))
+PosAscending(p, ids, L) ==
+    LET eps == RMul(Slack, MuMax(p))
+        negs == Negs(p)
+    IN /\ \A c \in 1..L : ids[c] \in negs
+       /\ \A c \in 1..(L-1) : RLe(Mu(p, ids[c]), RAdd(Mu(p, ids[c+1]), eps))
+       /\ L >= 1 => \A i \in negs : RLe(Mu(p, ids[1]), RAdd(Mu(p, i), eps))
 LbOrderLiteral(s) == PosAscending(s.p, Ids(s), Len(s.vals))
 LbOrderTail(s) ==          \* today: all positive multipliers first, ascending, then non-positive / infinite ones
     LET L == Min2(Len(s.vals), NPos(s.p))
     IN /\ Len(s.vals) > NPos(s.p)
        /\ PosAscending(s.p, Ids(s), L)
-       /\ \A c \in (L+1)..Len(s.vals) : Ids(s)[c] \notin Negs(s.p)
+       /\ LET negs == Negs(s.p) ids == Ids(s) IN \A c \in (L+1)..Len(s.vals) : ids[c] \notin negs
 LbOrder(s) == (Finished(s) /\ IsLb(s.o.api) /\ Regime(s.p) /\ Known(s)) =>
                  LbOrderLiteral(s) \/ (D(s, KF_C05_NonPositiveTail) /\ LbOrderTail(s))
 (* C06 ordering clause, demanded when sort is requested: omega > 0 ascending  (mu > 0 descending) *)
